@@ -1,15 +1,10 @@
 ---------------------------- MODULE MC_Handshake ----------------------------
 (* TLC-only definitions for Handshake: constants, bounds, view, labelled transitions for export. *)
-EXTENDS Handshake, Json
+EXTENDS Handshake, Json, HsConfig
 CONSTANTS MaxGen, MaxNet, RankHigh, TrustMode, AlgoMode, WithBad
 
-MCObjs == {"A", "B"}
-\* advertised lists: a tie between two ciphers in different list order (the case C06 is about), or plain on both sides
-ListA == IF AlgoMode = "tie" THEN <<<<1, 2>>, <<2, 2>>, <<3, 1>>>> ELSE <<<<1, 3>>, <<3, 1>>>>
-ListB == IF AlgoMode = "tie" THEN <<<<2, 2>>, <<1, 2>>>> ELSE <<<<3, 2>>, <<1, 1>>, <<2, 5>>>>
-MCAttr == [o \in MCObjs |->
-            [node |-> o, rank |-> IF o = RankHigh THEN 2 ELSE 1, key |-> IF o = "A" THEN "kA" ELSE "kB",
-             algos |-> IF o = "A" THEN ListA ELSE ListB, plain |-> AlgoMode = "plain", payload |-> <<"info", o>>]]
+MCObjs == CfgObjs
+MCAttr == AttrFor(RankHigh, AlgoMode)
 
 \* trust relations: "mutual" only, or every relation over the two party keys and a bystander key
 AllKeys == {"kA", "kB", "kY"}
@@ -35,9 +30,13 @@ NearBoundary == \A o \in Objs : /\ obj[o].retries \in {0, 1, MAX_RETRIES - 1, MA
 BoundReplay == Bound /\ NearBoundary
 View == <<obj, trusted, alive, done, role, got, rotSent, gen, net>>
 
-Sid == ToString(<<obj, trusted, alive, done, role, got, rotSent, gen, net>>)
-Sid2 == ToString(<<obj', trusted', alive', done', role', got', rotSent', gen', net'>>)
-EmitEdge == PrintT(<<"EDGE", ToJson([s |-> Sid, a |-> act', t |-> Sid2])>>)
+\* state identity for the schedule generator: a projection that determines the state (attributes are constants);
+\* tuples and strings only, because ToString/ToJson of records and sets is not order-stable between s and s'
+MidOrNone(x) == IF x = None THEN "-" ELSE Mid(x)
+PObj(ob, al, dn) == <<ob.stage, ob.retries, ob.closeT, ob.ecdh, IF ob.core = None THEN <<>> ELSE ob.core.k, ob.sel, MidOrNone(ob.last), al, dn>>
+Proj(ob, al, dn, g, nt) == [A |-> PObj(ob["A"], al["A"], dn["A"]), B |-> PObj(ob["B"], al["B"], dn["B"]), gen |-> g,
+                            net |-> {Mid(x) : x \in nt}]
+EmitEdge == PrintT(<<"EDGE", ToJson([s |-> Proj(obj, alive, done, gen, net), a |-> act', t |-> Proj(obj', alive', done', gen', net')])>>)
 
 \* liveness configuration (no drops, no attacker, small timers)
 MCLiveSpec == MCInit /\ act = [op |-> "init"] /\ [][LiveNext /\ UNCHANGED act]_mcvars /\ Fairness
